@@ -199,6 +199,7 @@ def build(X):
     ca = X.fn(STATIC_EVAL, "static_eval_case").pub_all()
     ca.inline_local_callees(X, STATIC_EVAL, exclude=("static_eval_case", "static_eval_rq_operator"))
     ca.rewrite_re("R5", r"\bExpr::new\(", "expr_new_lit(", count=None, why="Expr::new(<literal>)")
+    ca.desugar_slice_patterns()
     ca.ret_name("r")
     ca.contract("""
         requires is_case(expr0.kind),
@@ -253,6 +254,9 @@ _CASES = [  # (PRQL expression, expected SQLite value, obligation)
     ("case [false => 1, true => 2, a > 1 => 3]", 2, "SE2"), ("case [false => 1]", None, "SE2"), ("case [a > 100 => 1, true => 2]", 2, "SE2"),
     ("case [a > 1 => 1, true => 2]", 1, "SE2"), ("case [n == 1 => 1, false => 2]", None, "SE2"), ("case [false => 1, a > 1 => 5, false => 6]", 5, "SE2"),
     ("case [true => case [false => 1, true => 4]]", 4, "SE2"),
+    # a condition that is NULL selects no branch: the `true =>` branch decides (a boolean case is not its condition)
+    ("case [n > 1 => true, true => false]", 0, "SE2"), ("case [n > 1 => false, true => true]", 1, "SE2"), ("!(case [n > a => true, true => false])", 1, "SE2"),
+    ("case [a > 1 => true, true => false]", 1, "SE2"), ("case [n > 1 => 1, n < 1 => 2]", None, "SE2"),
     ("2 == 2.0", 1, "SE1"), ("2 != 2.0", 0, "SE1"), ("case [2.0 == 2 => 10, true => -1]", 10, "SE1"),
     ("case [false => 1, true => 2]", 2, "SE2w"), ("case [1 == 2 => a, true => n]", None, "SE2w"), ("case [false => 1, false => 2, true => a]", 7, "SE2w"),
 ]
